@@ -362,6 +362,49 @@ func extractC01() *lean {
 	l.def("statusListUpdateOnConflict", "List String", leanStrList(onConflict), onConflict)
 	seq("statusListStatusListReturns", slv, "statusList")
 
+	// the status list ISSUER: every path that rebuilds a list (Credential = renewal, Entry = new page, Revoke) loads the
+	// issuer record WITH its revocations
+	_, sli := parseFile("vcr/revocation/statuslist2021_issuer.go")
+	var preloads []string
+	for _, fn := range []string{"Credential", "Entry", "Revoke"} {
+		if fd := funcDecl(sli, fn); fd != nil {
+			ast.Inspect(fd, func(n ast.Node) bool {
+				if ce, ok := n.(*ast.CallExpr); ok {
+					if sel, ok := ce.Fun.(*ast.SelectorExpr); ok && sel.Sel.Name == "Preload" && len(ce.Args) > 0 {
+						preloads = append(preloads, fn+":Preload("+c01Expr(ce.Args[0])+")")
+					}
+				}
+				return true
+			})
+		}
+	}
+	l.def("statusListIssuerPreloads", "List String", leanStrList(preloads), preloads)
+	// key.go ResolveKeyByID: the collection(s) it iterates, and which document member each relationship type selects
+	var ranges, rels []string
+	_, keyF := parseFile("vdr/resolver/key.go")
+	if fd := funcDecl(keyF, "ResolveKeyByID"); fd != nil {
+		ast.Inspect(fd, func(n ast.Node) bool {
+			if rs, ok := n.(*ast.RangeStmt); ok {
+				ranges = append(ranges, c01Expr(rs.X))
+			}
+			return true
+		})
+	}
+	if fd := funcDecl(keyF, "resolveRelationships"); fd != nil {
+		ast.Inspect(fd, func(n ast.Node) bool {
+			if cc, ok := n.(*ast.CaseClause); ok && len(cc.List) > 0 {
+				for _, st := range cc.Body {
+					if rt, ok := st.(*ast.ReturnStmt); ok && len(rt.Results) > 0 {
+						rels = append(rels, c01Expr(cc.List[0])+"=>"+c01Expr(rt.Results[0]))
+					}
+				}
+			}
+			return true
+		})
+	}
+	l.def("resolveKeyByIDRanges", "List String", leanStrList(ranges), ranges)
+	l.def("relationshipCollections", "List String", leanStrList(rels), rels)
+
 	// trust.Config: the return sequences, and whether RemoveTrust drops EVERY entry equal to the issuer
 	// (a loop over the type's list that keeps the entries `!= issuer`), not just one occurrence
 	_, tr := parseFile("vcr/trust/trust.go")
